@@ -3025,7 +3025,7 @@ class Kernel:
                 # exit-free branches: joined (the continuation is translated once), as for a plain `if`
                 names = [self.aliases.get(n, n) for n in assigned(list(s.body) + list(s.orelse))]
                 join = []
-                for n in sorted(set(names)):
+                for n in sorted((z for z in set(names) if z in env), key=lambda z: (lean_ty(env[z]), z)):
                     if n in env and n != x and n not in [j for j, _ in join]:
                         join.append((n, env[n]))
                 if join:
@@ -3105,7 +3105,7 @@ class Kernel:
             names = [n for n in assigned(list(s.body) + list(s.orelse))]
             names = [self.aliases.get(n, n) for n in names]
             join = []
-            for n in sorted(set(names)):    # NORMAL FORM: the joined variables are ordered by name, not by the order of assignment in the source
+            for n in sorted((x for x in set(names) if x in env), key=lambda x: (lean_ty(env[x]), x)):    # NORMAL FORM: joined variables ordered by type, then name
                 if n in env and n not in [j for j, _ in join]:
                     join.append((n, env[n]))
             if not join:
@@ -3239,7 +3239,9 @@ class Kernel:
             src, ts, pat = self.for_source(s, env, binds, env_body)
         names = [self.aliases.get(n, n) for n in assigned(list(s.body))]
         state = []
-        for n in sorted(set(names)):        # NORMAL FORM: the loop state is ordered by variable name, not by the order of assignment in the source
+        # NORMAL FORM: the loop state is ordered by the TYPE of the variable (its Lean text), then by name — not by the order of assignment in the
+        # source, and not changed by renaming a local unless another carried variable has exactly the same type
+        for n in sorted((x for x in set(names) if x in env), key=lambda x: (lean_ty(env[x]), x)):
             if n in env and n not in [x for x, _ in state] and not (is_for and n in self.for_targets(s)):
                 state.append((n, env[n]))
         # variables first assigned inside the loop and used afterwards are not supported (Lean reports the unbound name)
